@@ -76,7 +76,8 @@ impl Fdt {
         let expires_ntp = (ntp >> 32) + self.duration.as_secs();
 
         let oti_attributes = match self.oti.fec_encoding_id {
-            oti::FECEncodingID::RaptorQ => None, // RaptorA scheme parameters is object dependent
+            // RaptorQ and Raptor scheme parameters are object dependent
+            oti::FECEncodingID::RaptorQ | oti::FECEncodingID::Raptor => None,
             _ => Some(self.oti.get_attributes()),
         };
 
